@@ -1,5 +1,6 @@
 //! Drivers of the graph domain: which inputs are run and which events each input produces.
 use crate::graphdom::*;
+use crate::graphdom2::*;
 use crate::util::*;
 use crate::with_kmer;
 use crate::Args;
@@ -12,6 +13,14 @@ pub struct Which {
     pub graphq: bool,
     pub recompress: bool,
     pub prune: bool,
+    pub pipeline: bool,
+    pub strand: bool,
+    pub iter: bool,
+    pub export: bool,
+    pub serde: bool,
+    pub index: bool,
+    pub tmpdir: String,
+    pub thorough: bool,
 }
 
 fn table_or_panic<K: Kmer>(sink: &Sink, inp: &GInput) -> Option<Vec<Row>> {
@@ -37,7 +46,25 @@ fn table_or_panic<K: Kmer>(sink: &Sink, inp: &GInput) -> Option<Vec<Row>> {
     }
 }
 
-pub fn run_input<K: Kmer + Send + Sync>(sink: &Sink, r: &mut Rng, inp: &GInput, w: &Which) {
+pub fn run_input<K: Kmer + Send + Sync + serde::Serialize + serde::de::DeserializeOwned>(sink: &Sink, r: &mut Rng, inp: &GInput, w: &Which) {
+    if w.pipeline && inp.mode == Mode::Sum {
+        ev_pipeline::<K>(sink, r, inp);
+    }
+    if w.strand {
+        let n = inp.reads.len();
+        let inp2 = GInput { mode: Mode::Sum, ..inp.clone() };
+        if n <= 4 && inp.k <= 8 {
+            for mask in 1..(1u32 << n) {
+                let flips: Vec<bool> = (0..n).map(|i| mask & (1 << i) != 0).collect();
+                ev_strand::<K>(sink, r, &inp2, &flips);
+            }
+        } else {
+            for _ in 0..(if w.thorough { 8 } else { 3 }) {
+                let flips: Vec<bool> = (0..n).map(|_| r.chance(1, 2)).collect();
+                ev_strand::<K>(sink, r, &inp2, &flips);
+            }
+        }
+    }
     let raw = match table_or_panic::<K>(sink, inp) {
         Some(t) => t,
         None => return,
@@ -65,7 +92,7 @@ pub fn run_input<K: Kmer + Send + Sync>(sink: &Sink, r: &mut Rng, inp: &GInput, 
             nodes_pruned = n1;
         }
     }
-    if !(w.graphq || w.recompress || w.prune) {
+    if !(w.graphq || w.recompress || w.prune || w.iter || w.export || w.serde || w.index) {
         return;
     }
     let nodes = match nodes_pruned {
@@ -77,6 +104,19 @@ pub fn run_input<K: Kmer + Send + Sync>(sink: &Sink, r: &mut Rng, inp: &GInput, 
     };
     if w.graphq {
         ev_graphq::<K>(sink, r, inp, &nodes, "compress");
+    }
+    if w.iter {
+        ev_iter::<K>(sink, r, inp, &nodes);
+    }
+    if w.export {
+        ev_export::<K>(sink, inp, &nodes, &w.tmpdir);
+    }
+    if w.serde {
+        ev_serde::<K>(sink, r, inp, &nodes);
+    }
+    if w.index {
+        let pools: Vec<usize> = if w.thorough { vec![1, 2, 3, 4, 8, 16] } else { vec![1, 2, 4, 16] };
+        ev_index::<K>(sink, r, inp, &nodes, &pools, if w.thorough { 3 } else { 2 }, true);
     }
     if w.prune {
         ev_prune::<K>(sink, r, inp, &raw);
@@ -130,11 +170,21 @@ pub fn run_input<K: Kmer + Send + Sync>(sink: &Sink, r: &mut Rng, inp: &GInput, 
 fn which_from(args: &Args) -> Which {
     let ev = args.list("events");
     let has = |s: &str| ev.is_empty() || ev.iter().any(|x| x == s);
+    let out = args.get("out", "");
+    let tmpdir = std::path::Path::new(&out).parent().map(|p| p.to_string_lossy().to_string()).unwrap_or_else(|| ".".into());
     Which {
         compress: has("compress"),
         graphq: has("graphq"),
         recompress: has("recompress"),
         prune: has("prune"),
+        pipeline: has("pipeline"),
+        strand: has("strand"),
+        iter: has("iter"),
+        export: has("export"),
+        serde: has("serde"),
+        index: has("index"),
+        tmpdir: if tmpdir.is_empty() { ".".into() } else { tmpdir },
+        thorough: args.thorough(),
     }
 }
 
@@ -168,6 +218,16 @@ pub fn record(sink: &Sink, args: &Args) {
         let inp = gen_input(&mut r, &GRAPH_KS);
         let k = inp.k;
         with_kmer!(k, run_input(sink, &mut r, &inp, &w));
+    }
+    // C19 at scale: >= 10^5 single-k-mer nodes so that the parallel index builder really splits the work
+    let big = args.num("big", 0) as usize;
+    if big > 0 {
+        for (k, st) in [(16usize, false), (20, true)] {
+            let nodes = big_nodes(&mut r, k, big, st);
+            let inp = GInput { reads: vec![], k, stranded: st, thr: 1, mode: Mode::Sum, fam: "big" };
+            let pools: Vec<usize> = vec![1, 2, 3, 4, 8, 16];
+            with_kmer!(k, ev_index(sink, &mut r, &inp, &nodes, &pools, if w.thorough { 4 } else { 2 }, false));
+        }
     }
 }
 
